@@ -37,6 +37,10 @@ def generate(rng, tier):
             k = rng.choice([2, 3, 4])
             cases.append({"recipe": r, "reps": k, "ks": S.random_cuts(rng, k), "features": feats})
             continue
+        if rng.random() < 0.1:       # nicknamed templates of hidden tables used like visible ones
+            r, feats = S.stream_hidden_table_nicks(rng)
+            cases.append({"recipe": r, "reps": rng.choice([1, 2]), "features": feats})
+            continue
         r, feats = S.gen_recipe(rng, W)
         if rng.random() < 0.3 and factor_hidden_into_macro(rng, r):
             feats = sorted(set(feats) | {"hidden_field_from_macro"})
@@ -332,6 +336,12 @@ def run_impl(case):
         obs["artefacts"] = scan_artefacts(case["recipe"], case["reps"])
         ren = S.run_recipe(rename_hidden(case["recipe"]), reps=case["reps"])
         obs["renamed"] = ren.get("ok") if "ok" in ren else {"err": ren["err"], "msg": ren.get("msg", "")[:150]}
+    elif obs.get("err") == "DGE":
+        # the other direction of "behaves as if it were visible": a recipe that fails must also fail
+        # with its hidden names made visible
+        ren = S.run_recipe(rename_hidden(case["recipe"]), reps=case["reps"])
+        if "ok" in ren:
+            obs["fails_only_when_hidden"] = True
     obs.pop("cont", None)
     return obs
 
@@ -354,6 +364,9 @@ def oracle(case, obs):
     if "err" in obs:
         if obs["err"] != "DGE":
             return f"internal-error: {obs['err']}: {obs.get('msg','')[:120]}"
+        if obs.get("fails_only_when_hidden"):
+            return (f"transparency: the recipe fails ({obs.get('msg', '')[:100]}) but completes with its hidden names "
+                    f"made visible")
         return None
     for t, fs in obs["ok"]:
         if t.startswith("__"):
